@@ -125,6 +125,43 @@ def oversize(r):
     return o
 
 
+def illtyped(r, tier):
+    """well-formed conditions with an operand of the WRONG type / kind in every position that expects a particular one: literals,
+    externals, loop variables, module fields and function results of each type (the diagnosis must come from the type check, not
+    from dereferencing what only a literal carries)"""
+    fill = {
+        "str_lit": '"abc"', "str_ext": "ext_s", "str_mod": "pe.pdb_path", "str_fn": 'tests.isum(1,2) == 3 and "x"', "flt_lit": "1.5", "flt_ext": "ext_f",
+        "int_lit": "3", "int_ext": "ext_i", "int_undef": "tests.undefined.i", "bool": "true", "bool_ext": "ext_b", "regexp": "/ab+c/", "rule": "r_true",
+        "str_var": "s", "int_var": "i", "neg": "-1", "big": "9223372036854775807",
+    }
+    templates = [
+        "%s of them", "%s of ($a*)", "for %s of them : ( $ )", "%s%% of them", "%s of them in (0..10)", "%s of them at 0", "for %s i in (1..3) : ( i > 0 )",
+        "$a at %s", "$a in (%s..10)", "$a in (0..%s)", "#a in (%s..9) > 0", "@a[%s] > 0", "!a[%s] > 0", "uint8(%s) > 0", "int32be(%s) > 0",
+        "%s + 1 > 0", "1 - %s > 0", "%s * 2 > 0", "%s \\ 2 > 0", "%s %% 2 > 0", "%s & 1 > 0", "~%s > 0", "-%s < 0", "1 << %s > 0", "%s >> 1 >= 0",
+        "%s contains \"a\"", "\"abc\" icontains %s", "%s startswith \"a\"", "%s matches /a/", "\"abc\" matches %s", "%s iequals \"a\"",
+        "%s == 1", "%s < \"a\"", "%s and true", "not %s", "defined %s", "%s == %s",
+        "for any k in (%s) : ( k == 1 )", "for any k in (1, %s) : ( k == 1 )", "for any k in (%s..3) : ( k == 1 )",
+        "math.abs(%s) >= 0", "math.entropy(%s) >= 0.0", "hash.md5(%s, 4) == \"x\"", "math.in_range(%s, 0.0, 1.0)", "tests.length(%s) > 0",
+        "pe.sections[%s].name == \"x\"", "pe.imports(%s)", "pe.imports(\"k\", %s)", "tests.string_dict[%s] == \"x\"", "tests.integer_array[%s] == 1",
+    ]
+    pre = 'import "pe"\nimport "tests"\nimport "math"\nimport "hash"\nrule r_true { condition: true }\n'
+    out = []
+    for t in templates:
+        for fk, fv in fill.items():
+            if tier == "quick" and r.random() < 0.55:
+                continue
+            body = t.replace("%s", fv) if t.count("%s") <= 1 else t % tuple([fv] * t.count("%s"))
+            body = body.replace("%%", "%")
+            if fk == "str_var":
+                cond_txt = 'for any s in ("a", "bb") : ( %s )' % body
+            elif fk == "int_var":
+                cond_txt = "for any i in (1..3) : ( %s )" % body
+            else:
+                cond_txt = body
+            out.append(("illtyped:%s@%s" % (fk, t[:18]), pre + 'rule t { strings: $a = "abc" $b = "de" condition: %s }' % cond_txt))
+    return out
+
+
 def c07(res, tier, seed):
     wd = yv.workdir("C07")
     m = yv.tlc("ApiLifecycle", "MC_ApiLifecycle.cfg", wd, timeout=900)
@@ -151,6 +188,8 @@ def c07(res, tier, seed):
         cases.append(("oversize:" + kind, src))
         if kind.startswith("strict-escape") or kind.startswith("re-"):
             cases.append(("oversize:" + kind + " [strict]", src))       # these families are about strict escape checking: always also with it
+    for kind, src in illtyped(r, tier):
+        cases.append((kind, src))
     r.shuffle(cases)
     includes = ["include inc.yar " + yv.hx(b"rule incrule { condition: true }"),
                 "include self.yar " + yv.hx(b'include "self.yar"'),
@@ -205,6 +244,47 @@ def c07(res, tier, seed):
                 lo, hi = (a or 0), (b or 0)
                 res.violation("memory leaked by failed compilations between cases %s and %s of batch %d (%d bytes): kinds %s" % (lo, hi, ci, y - x, sorted({part[j][0].split("@")[0] for j in range(lo, min(hi + 1, len(part)))})[:12]),
                               yv.save_replay("C07", "leak_%d_%s" % (ci, hi), {"sources": [part[j][1] for j in range(lo, min(hi + 1, len(part)))]}))
+    # several independent errors in one source, one per rule, each on a known line of its own (ApiLifecycle!ErrLinesOK)
+    ERR_RULES = [   # (lines of the rule text, index of the line that carries the error)
+        (["rule %s {", "  strings:", "    $a = { 01 [5-2] 02 }", "  condition:", "    $a", "}"], 2),
+        (["rule %s {", "  condition:", "    nosuch_identifier_%s == 1", "}"], 2),
+        (["rule %s {", "  strings:", '    $a = "x"', '    $a = "y"', "  condition:", "    $a", "}"], 3),
+        (["rule %s {", "  strings:", "    $a = /ab(cd/", "  condition:", "    $a", "}"], 2),
+        (["rule %s {", "  condition:", '    "a" + 1 == 2', "}"], 2),
+        (["rule %s {", "  strings:", '    $a = "x" xor nocase', "  condition:", "    $a", "}"], 2),
+        (["rule %s {", "  condition:", "    1 << -1 == 0", "}"], 2),
+        (["rule %s {", "  strings:", "    $a = { 41 ( 42 | ) }", "  condition:", "    $a", "}"], 2),
+        (["rule %s {", "  condition:", "    for any i in (1..2) : ( j == 1 )", "}"], 2),
+    ]
+    OK_RULE = ["rule %s {", "  strings:", '    $s = "fine"', "  condition:", "    $s", "}"]
+    el_cases = []
+    for k in range(40 if tier == "quick" else 400):
+        n = r.choice([2, 2, 3])
+        lines_, expected = [], []
+        for j in range(n):
+            for _ in range(r.randint(0, 3)): lines_.append("")
+            if r.random() < 0.4:
+                lines_ += [x.replace("%s", "ok%d_%d" % (k, j)) for x in OK_RULE]
+            tmpl, idx_ = r.choice(ERR_RULES)
+            expected.append(len(lines_) + idx_ + 1)
+            lines_ += [x.replace("%s", "e%d_%d" % (k, j)) for x in tmpl]
+        el_cases.append(("\n".join(lines_) + "\n", expected))
+    lines = ["init", "opt iterlog 0"]
+    for k, (src, expected) in enumerate(el_cases):
+        lines += ["note c%d" % k, "compiler 0", "%s 0 - %s" % (["add", "addfile", "addfd", "addbytes"][k % 4], yv.hx(src.encode())), "cdestroy 0"]
+    lines += ["finalize"]
+    run = yv.run_script(exe, lines, wd, name="c07_errlines", hang=60, timeout=600)
+    if not run.complete:
+        res.violation("sources with several errors: %s" % yv.crash_summary(run), yv.save_replay("C07", "errlines_crash", {"crash": yv.crash_summary(run), "script": run.script_path}))
+    cur = None
+    for e in run.events:
+        if e["e"] == "Note" and e["text"].startswith("c"): cur = int(e["text"][1:])
+        elif e["e"] == "Compile" and cur is not None and "skipped" not in e:
+            src, expected = el_cases[cur]
+            got = [d["line"] for d in e["diag"] if d["lvl"] == "error"]
+            records.append({"kind": "errlines", "expected": expected, "got": got})
+            owners.append(("several-errors", src, e["ret"], ["lines reported %s, errors planted on lines %s" % (got, expected)] + [d["msg"] for d in e["diag"] if d["lvl"] == "error"][:3]))
+            res.count(1, src)
     # include directives served by the library's own include callback (real files): a directory, a device, a missing file, a file
     # that fails to compile, a file that includes a directory - every failure with a message and a line, no descriptor left open
     incdir = os.path.join(wd, "incfiles"); os.makedirs(incdir, exist_ok=True)
@@ -248,7 +328,7 @@ def c07(res, tier, seed):
                       yv.save_replay("C07", "contract_%d" % b, {"kind": kind, "source": src, "record": records[b]}))
     if len(bad) > 200:
         res.cov["parts"]["further_rejected_cases"] = len(bad) - 200
-    rej = sum(1 for rec in records if rec["ret"] > 0)
+    rej = sum(1 for rec in records if rec.get("ret", 0) > 0)
     res.cov["distinct_nontrivial"] = rej
     res.cov["parts"]["rejected_by_compiler"] = rej
     res.cov["parts"]["accepted_by_compiler"] = len(records) - rej
